@@ -55,7 +55,9 @@ func (s *Shard) Restore(r io.Reader, ignoreErrors bool) (int, int, error) {
 			data = data[:sz]
 		}
 
-		_, err = r.Read(data)
+		// r can legally return less than requested or the last bytes along with
+		// io.EOF, io.ReadFull handles both.
+		_, err = io.ReadFull(r, data)
 		if err != nil {
 			return count, failCount, err
 		}
